@@ -20,7 +20,7 @@ META = {
     ),
     "anchors": ["abelian_core.calc_reshape_args", "abelian_core.AbelianArray.reshape"],
     "floors": {
-        "quick": {"evaluations": 60000, "distinct_nontrivial": 400, "tables": {"array/reshape": 3000, "array/roundtrip": 1500, "routine/forward": 30000, "routine/backward": 25000, "routine/with-fused-axes": 50000, "routine/long-forward": 50000, "routine/long-plans-with>=3-groups": 5000, "routine/plans-that-unfuse-and-expand": 2000, "array/expand-or-unfuse-target": 1500, "array/chain-roundtrip-depth-3": 500, "feature/nonzero-charge-singleton": 200, "feature/fused-axis": 200, "kind/fermionic": 500, "array/many-legs-roundtrip": 2000, "feature/merged-run-with->=6-odd-charges": 300}},
+        "quick": {"evaluations": 60000, "distinct_nontrivial": 400, "tables": {"array/reshape": 3000, "array/roundtrip": 1500, "routine/forward": 30000, "routine/backward": 25000, "routine/with-fused-axes": 50000, "routine/long-forward": 50000, "routine/long-plans-with>=3-groups": 5000, "routine/plans-that-unfuse-and-expand": 2000, "array/expand-or-unfuse-target": 1500, "array/chain-roundtrip-depth-3": 500, "feature/nonzero-charge-singleton": 200, "feature/fused-axis": 200, "kind/fermionic": 500, "array/many-legs-roundtrip": 2000, "feature/merged-run-with->=6-odd-charges": 300, "history/derived-by-conj": 500, "history/legs-all-bra": 1000}},
         "thorough": {"evaluations": 300000, "distinct_nontrivial": 8000, "tables": {"array/reshape": 100000, "routine/forward": 40000}},
     },
     "exhaustive": {"quick": False, "thorough": False},
@@ -598,6 +598,88 @@ def array_case(ctx, rng):
             ctx.sample({"x": describe(x), "shape": list(shape), "target": list(tgt), "result_shape": [ix.size_total for ix in y.indices]}, limit=3)
 
 
+def history_case(ctx, rng):
+    """An array goes through a merge-and-back round trip; then an array DERIVED from it
+    (conjugate, adjoint, transpose, negative, scaled, copy - it shares index objects, memoised
+    keys and cached plans with the first) goes through the corresponding round trip. Leg
+    patterns: all bra-like, all ket-like, mixed."""
+    sr = ctx.sr
+    sym = gen.pick_sym(rng)
+    ferm = rng.random() < 0.5
+    nd = rng.randint(2, 4)
+    pattern = rng.choice(["all-bra", "all-bra", "all-ket", "random"])
+    idx = [gen.rand_index(sr, rng, sym, maxc=2, maxd=2, p_single=0.1, dual={"all-ket": False, "all-bra": True}.get(pattern)) for _ in range(nd)]
+    x = gen.make_array(sr, rng, sym, idx, fermionic=ferm, values=gen.Values(rng, "unique", rng.choice(["float64", "complex128"])), sparsity=rng.choice([0.0, 0.0, 0.3]))
+    if not x.blocks:
+        return
+    k = rng.randrange(nd - 1)
+    width = rng.randint(2, min(3, nd - k))
+
+    def roundtrip(y, k, width, tag):
+        shp = tuple(ix.size_total for ix in y.indices)
+        m_ = 1
+        for s_ in shp[k : k + width]:
+            m_ *= s_
+        tgt = shp[:k] + (m_,) + shp[k + width :]
+        wit = {"step": tag, "pattern": pattern, "x": describe(x, True), "y": describe(y, True), "target": tgt}
+        o = ctx.call(lambda: y.reshape(tgt))
+        ctx.evaluated()
+        ctx.count("array", "reshape")
+        if not o.ok:
+            ctx.violation(f"reshape-raises-{o.excname}", f"{tag}: {shp}->{tgt}: {o.exc!r}", wit)
+            return False
+        z = o.value
+        zs = tuple(ix.size_total for ix in z.indices)
+        if len(zs) != len(tgt) or any(a > b for a, b in zip(zs, tgt)) or sumsq(z) != sumsq(y):
+            ctx.violation("reshape-chain-step", f"{tag}: {shp}->{tgt}: result shape {zs}, sum of squares {sumsq(z)} vs {sumsq(y)}", wit)
+            return False
+        o2 = ctx.call(lambda: z.reshape(shp))
+        ctx.evaluated()
+        ctx.count("array", "roundtrip")
+        if not o2.ok:
+            ctx.violation(f"reshape-back-raises-{o2.excname}", f"{tag}: {shp}->{tgt}->{shp}: {o2.exc!r}", wit)
+            return False
+        m = same_array(y, o2.value)
+        if m:
+            ctx.violation("reshape-roundtrip", f"{tag}: {shp}->{tgt}->{shp}: {m}", wit)
+            return False
+        return True
+
+    if rng.random() < 0.85 and not roundtrip(x, k, width, "first array"):
+        return
+    op = rng.choice(["conj", "conj", "H", "transpose", "neg", "scale", "copy", "conj-conj"])
+    perm = None
+    if op == "conj":
+        o = ctx.call(lambda: x.conj())
+    elif op == "conj-conj":
+        o = ctx.call(lambda: x.conj().conj())
+    elif op == "H":
+        o = ctx.call(lambda: x.H)
+    elif op == "transpose":
+        perm = list(range(nd))
+        rng.shuffle(perm)
+        o = ctx.call(lambda: x.transpose(tuple(perm)))
+    elif op == "neg":
+        o = ctx.call(lambda: -x)
+    elif op == "scale":
+        o = ctx.call(lambda: x * 2)
+    else:
+        o = ctx.call(lambda: x.copy())
+    if not o.ok:
+        return
+    y = o.value
+    k2 = k
+    if op == "H":
+        k2 = nd - k - width
+    elif op == "transpose":
+        k2 = rng.randrange(nd - 1)
+        width = min(width, nd - k2)
+    ctx.count("history", f"derived-by-{op}")
+    ctx.count("history", f"legs-{pattern}")
+    if roundtrip(y, k2, width, f"array derived by {op} from one reshaped before") and pattern != "random":
+        ctx.nontrivial(("history", op, pattern, ferm, struct_sig(x), k, width))
+
+
 def chain_case(ctx, rng):
     """Sibling arrays (same shape, same tables one level up, different innermost indices) go
     one after another through the same chain of merges, several levels deep, and stepwise
@@ -710,6 +792,8 @@ def run(ctx):
             ctx.run_case(many_legs_case, ctx, rng)
         for _, rng in ctx.cases("chains", ctx.budget(4000, 80000)):
             ctx.run_case(chain_case, ctx, rng)
+        for _, rng in ctx.cases("histories", ctx.budget(6000, 120000)):
+            ctx.run_case(history_case, ctx, rng)
         hooks.uninstall()
         return
     # exhaustive routine box
@@ -727,6 +811,8 @@ def run(ctx):
         ctx.run_case(many_legs_case, ctx, rng)
     for _, rng in ctx.cases("chains", ctx.budget(4000, 80000)):
         ctx.run_case(chain_case, ctx, rng)
+    for _, rng in ctx.cases("histories", ctx.budget(6000, 120000)):
+        ctx.run_case(history_case, ctx, rng)
     for _, rng in ctx.cases("routine-arbitrary", ctx.budget(100000, 1500000)):
         ctx.run_case(routine_unreachable, ctx, ac, rng)
     for _, rng in ctx.cases("routine-fused", ctx.budget(150000, 2000000)):
